@@ -16,6 +16,7 @@ import (
 type Frame struct {
 	inDevirt   bool
 	cutArgs    []*Val
+	cutResult  *Val
 	fn         *ssa.Function
 	regs       map[ssa.Value]*Val
 	cellOf     map[*ssa.Alloc]*Cell
